@@ -44,7 +44,7 @@ def layout(r, coin, blocks, callback="csvdump", huge=False, first_height=0):
             cursor[n] += r.randrange(1, 5000)          # hole (zeros)
         elif huge and kind < 0.5:
             cursor[n] += r.choice([1 << 32, (1 << 32) + 12345, 3 << 31])   # sparse: offsets beyond 4 GiB
-        magic = r.choice([None, None, 0, 0xffffffff])  # the magic is never read
+        magic = r.choice([None, None, 0, 0xffffffff, r.choice(list(K.MAGIC.values()))])  # the magic is never read (another coin's neither)
         off = s.place_block(names[n], cursor[n], raw, magic=magic if magic is not None else None, size_field=None)
         cursor[n] = off + len(raw)
         placements[i] = (n, off)
